@@ -15,6 +15,7 @@ from dalimc.aio.engine import execute, Caller
 
 ID = "C15"
 OPTIMISED_STRIDE = {"quick": 12, "thorough": 24}      # every k-th shard once more in an interpreter started with -O
+TRACE_STRIDE = {"quick": 10, "thorough": 24}      # every k-th shard once more with logging enabled down to TRACE
 LEVEL = "model_checking"
 ENGINE = "E3"
 TECHNIQUE = "controlled-scheduler exploration (iterative deviation bounding) of the real asyncio drivers on a virtual event loop against gateway models; wire log vs independent per-caller expansion"
